@@ -4,6 +4,8 @@ import (
 	"encoding/json"
 	"flag"
 	"fmt"
+	"os"
+	"path/filepath"
 	"strings"
 	"unicode"
 	"unicode/utf8"
@@ -126,6 +128,8 @@ type valEv struct {
 	Tr       int    `json:"tr"`
 	Merge    bool   `json:"merge"`
 	Hex      string `json:"hex,omitempty"`
+	Printed  int    `json:"printed"` // climit: results printed by the real binary
+	Form     string `json:"form,omitempty"`
 }
 
 func validateRun(args []string) int {
@@ -249,6 +253,26 @@ func validateRun(args []string) int {
 	}
 	for i := 0; i < 200; i++ {
 		lim(r.Intn(260) - 80)
+	}
+	// the same rule at the command line, through both ways of starting a search (`wtf search ...` and plain `wtf ...`)
+	if os.Getenv("VERIF_WTF") != "" {
+		dbf := filepath.Join(repoPath(), "assets", "commands.yml")
+		for _, form := range []string{"search", "root"} {
+			for _, n := range []int{-7, -1, 0, 1, 7, 100, 101, 150, 500, 100000} {
+				argv := []string{}
+				if form == "search" {
+					argv = append(argv, "search")
+				}
+				argv = append(argv, "--database", dbf, fmt.Sprintf("--limit=%d", n), "--", "list", "files")
+				o, _, err := runWtf(argv)
+				if err != nil {
+					fatal("cannot run wtf: %v", err)
+				}
+				tr++
+				w.emit(&valEv{Op: "climit", N: n, Deflt: deflt, Tr: tr, In: []int{}, Out: []int{}, Form: form,
+					Printed: len(reListItem.FindAllStringSubmatch(reANSI.ReplaceAllString(o, ""), -1))})
+			}
+		}
 	}
 	for i := 0; i < 200; i++ { // wide values whose low bits look like a small limit
 		hi := (r.Intn(1<<20) - 1<<19) << uint(8*(1+r.Intn(6)))
